@@ -49,10 +49,8 @@ pub fn handle_xadd(storage: &Arc<StorageEngine>, db: usize, parts: &[RespFrame])
         // Auto-generate ID
         storage.xadd(db, key, fields)?
     } else {
-        // Parse specific ID using optimized parsing
-        let id_str = unsafe { std::str::from_utf8_unchecked(id_bytes) };
-        
-        let id = match StreamId::from_string(id_str) {
+        // Parse specific ID; the bytes come from the client and need not be UTF-8
+        let id = match std::str::from_utf8(id_bytes).ok().and_then(StreamId::from_string) {
             Some(id) => id,
             None => return Ok(RespFrame::error("ERR Invalid stream ID specified as stream command argument")),
         };
